@@ -563,6 +563,58 @@ def oracle_border_chunking(ck, rng):
                                      "multi_chunk": bool(ch and tuple(ch) != tomo.shape)}, oracle="border_chunking")
 
 
+def halves_partition(stack, hs):
+    """the two half maps are plain means over two disjoint, jointly exhaustive, non-empty parts of the given sub-volumes (membership
+    recovered by least squares: weight 1/k on the k members of a half, 0 elsewhere)"""
+    n = len(stack)
+    A = np.stack([np.asarray(h_).ravel() for h_ in stack]).T.astype(np.float64)
+    if np.linalg.matrix_rank(A) < n:
+        return True            # (sub-volumes not independent: membership cannot be read off)
+    W, *_ = np.linalg.lstsq(A, np.stack([np.asarray(hs[0]).ravel(), np.asarray(hs[1]).ravel()]).T.astype(np.float64), rcond=None)
+    memb = W > 1e-3
+    ok = bool(np.all(memb.sum(axis=1) == 1) and memb[:, 0].any() and memb[:, 1].any())
+    for h in (0, 1):
+        k = int(memb[:, h].sum())
+        ok = ok and k > 0 and bool(np.allclose(W[memb[:, h], h], 1.0 / k, atol=1e-3)) and bool(np.allclose(W[~memb[:, h], h], 0.0, atol=1e-3))
+    return ok
+
+
+def oracle_stack_chunk_size(ck, rng):
+    """the stack of sub-volumes is cut into blocks according to dask's `array.chunk-size`; averages (plain, split, grouped) and apply do not
+    depend on that setting: every result equals the one computed from the sub-volumes loaded one by one"""
+    import dask
+    import dask.array as da
+    from acryo import SubtomogramLoader, Molecules
+    from scipy.spatial.transform import Rotation
+    tomo = (rng.normal(size=(26, 26, 26)) * 5 + 20).astype(np.float32)
+    n = 25
+    mol = Molecules(rng.uniform(8, 17, size=(n, 3)), Rotation.random(n, random_state=int(rng.integers(0, 2**31))), features={"g": [j % 3 for j in range(n)]})
+    for img, iname in ((tomo, "numpy"), (da.from_array(tomo, chunks=(13, 13, 26)), "dask")):
+        ld = SubtomogramLoader(img, mol, order=1, output_shape=(8, 8, 8))
+        ref = np.stack([np.asarray(ld.load(i)) for i in range(n)])
+        for cs in ("128MiB", "32KiB", "20KiB", "3KiB"):
+            ck.oracle_count("stack_chunk_size", 1, 1)
+            bad = []
+            try:
+                with dask.config.set({"array.chunk-size": cs}):
+                    avg = np.asarray(ld.average())
+                    hs = np.asarray(ld.average_split(n_set=1, seed=2, squeeze=False))[0]
+                    ga = ld.groupby("g").average()
+                    ap = ld.apply([np.mean, np.std]).to_numpy()
+                if not np.allclose(avg, ref.mean(axis=0), atol=1e-4): bad.append(f"average differs from the mean of the sub-volumes by {np.abs(avg - ref.mean(axis=0)).max():.3g}")
+                if not halves_partition(ref, hs):
+                    bad.append("half maps are not the means of two disjoint, exhaustive, non-empty parts of the sub-volumes")
+                for key in ga:
+                    rows = [j for j in range(n) if j % 3 == key]
+                    if not np.allclose(np.asarray(ga[key]), ref[rows].mean(axis=0), atol=1e-4): bad.append(f"group {key} average differs")
+                if not np.allclose(ap, np.stack([ref.reshape(n, -1).mean(axis=1), ref.reshape(n, -1).std(axis=1)], axis=1), atol=1e-4): bad.append("apply rows differ")
+            except Exception as e:  # noqa
+                bad.append(f"raised {type(e).__name__}: {e}")
+            if bad:
+                ck.violation(what=f"{iname} tomogram, 25 molecules, array.chunk-size = {cs}: " + "; ".join(bad[:3]), inp={"image": iname, "chunk_size": cs, "n": n},
+                             key={"site": "stack-chunk-size", "symptom": bad[0].split(" ")[0]}, oracle="stack_chunk_size")
+
+
 def run(ck: common.Check):
     ck.design_ref = "DESIGN.md §6 C10"
     ck.trusted_base = TB
@@ -581,6 +633,7 @@ def run(ck: common.Check):
     oracle_batch_backing(ck, np.random.default_rng(ck.seed + 101010))
     oracle_imread_and_mock(ck, np.random.default_rng(ck.seed + 10101))
     oracle_border_chunking(ck, np.random.default_rng(ck.seed + 1001))
+    oracle_stack_chunk_size(ck, np.random.default_rng(ck.seed + 1002))
 
 
 def replay_file(data):
